@@ -72,7 +72,6 @@ func (p *Prog) invokesOn(fs []*ssa.Function, iface, m, owner, field string) []*s
 var childVisitExempt = map[string]string{
 	"Check|FieldReferenceExpr.FieldExpr": "the aliased expression is a select field and is checked as such by SelectStmt.ValidateFields",
 	"Check|FunctionCallExpr.Name":        "asserted to be a *NameExpr leaf by the same method (anything else is rejected)",
-	"Check|FieldAccessExpr.FieldName":    "restricted to literal String/Number nodes by the method's type switch; anything else is rejected",
 }
 
 func ruleChildVisit(p *Prog, r *Result) {
@@ -99,6 +98,62 @@ func ruleChildVisit(p *Prog, r *Result) {
 				if why, ex := childVisitExempt[key]; ex {
 					r.Exempt = append(r.Exempt, key+": "+why)
 					continue
+				}
+				if m == "Check" && len(p.invokesOn(fs, "Expression", m, t.Obj().Name(), f)) == 0 {
+					// a child that is never checked must be a leaf whose kind the method itself tests: every success
+					// return of T.Check (a constant nil error) lies behind the true edge of a type test of that child
+					var tests []ssa.Value
+					allInstrs(fn, func(in ssa.Instruction) {
+						ta, ok := in.(*ssa.TypeAssert)
+						if !ok || !ta.CommaOk || !p.derivesFromField(ta.X, t.Obj().Name(), f, traceOpts{}) {
+							return
+						}
+						if ex := extractOf2(ta, 1); ex != nil {
+							tests = append(tests, ex)
+						}
+					})
+					if len(tests) > 0 {
+						bad := ""
+						for _, b := range fn.Blocks {
+							ret := retOf(b)
+							if ret == nil || !isNilConst(retVal(ret, len(ret.Results)-1)) {
+								continue
+							}
+							// behind a test: the block is only reached over true edges of the tests (a case listing
+							// several kinds joins the true edges of several tests)
+							isTest := func(v ssa.Value) bool {
+								for _, tv := range tests {
+									if tv == v {
+										return true
+									}
+								}
+								return false
+							}
+							var behind func(x *ssa.BasicBlock, seen map[*ssa.BasicBlock]bool) bool
+							behind = func(x *ssa.BasicBlock, seen map[*ssa.BasicBlock]bool) bool {
+								if seen[x] || len(x.Preds) == 0 {
+									return false
+								}
+								seen[x] = true
+								for _, pr := range x.Preds {
+									viaTrue := false
+									if f := ifOf(pr); f != nil && isTest(f.Cond) && pr.Succs[0] == x && pr.Succs[1] != x {
+										viaTrue = true
+									}
+									if !viaTrue && !behind(pr, seen) {
+										return false
+									}
+								}
+								return true
+							}
+							okb := behind(b, map[*ssa.BasicBlock]bool{})
+							if !okb {
+								bad = fmt.Sprintf("%s accepts the node at %s without having looked at child %s, which it never checks: anything may stand there", p.FName(fn), p.InstrPos(ret), f)
+							}
+						}
+						r.add(bad == "", key+"|leaf-kind", p.Pos(fn.Pos()), firstNonEmpty(bad, fmt.Sprintf("child %s is not checked but every accepting return lies behind a test of its node kind", f)))
+						continue
+					}
 				}
 				calls := p.invokesOn(fs, "Expression", m, t.Obj().Name(), f)
 				if len(calls) == 0 {
